@@ -81,6 +81,10 @@ pub struct C17 {
     pub prior_crash: Option<(u64, u64)>,
     /// this run consumes the relabelled output of a first run over these formulae
     pub chained_from: Option<Vec<String>>,
+    /// a previous run left a larger, valid archive at the `-o` path
+    pub out_stale: bool,
+    /// the context archive also holds entries in a sub-directory (`old/<label>.bdd`) with other sets
+    pub ctx_decoys: bool,
 }
 
 fn fault_to_json(f: &Fault) -> Value {
@@ -133,6 +137,7 @@ impl C17 {
             "fault": fault_to_json(&self.fault), "clock": self.clock, "rand": self.rand, "io_plan": self.io_plan,
             "prior_crash": self.prior_crash.map(|(a, b)| json!([a, b])),
             "chained_from": self.chained_from,
+            "out_stale": self.out_stale, "ctx_decoys": self.ctx_decoys,
         })
     }
     pub fn from_json(v: &Value) -> Result<C17, String> {
@@ -159,6 +164,8 @@ impl C17 {
             io_plan: v["io_plan"].as_str().unwrap_or("").to_string(),
             prior_crash: v["prior_crash"].as_array().map(|a| (a[0].as_u64().unwrap_or(1), a[1].as_u64().unwrap_or(0))),
             chained_from: v["chained_from"].as_array().map(|a| a.iter().map(|s| s.as_str().unwrap_or("").to_string()).collect()),
+            out_stale: v["out_stale"].as_bool().unwrap_or(false),
+            ctx_decoys: v["ctx_decoys"].as_bool().unwrap_or(false),
         })
     }
 }
@@ -279,6 +286,23 @@ pub fn generate(rng: &Rng, world: &World, tier: &str) -> C17 {
         let text = f.render();
         formulas.push(if r.chance(1, 3) && text.starts_with('(') && text.ends_with(')') { text[1..text.len() - 1].to_string() } else { text });
     }
+    // the same formula may occur several times in a file (literally, or up to variable names)
+    if !formulas.is_empty() && r.chance(1, 3) {
+        for _ in 0..r.range(1, 2) {
+            let src = r.pick(&formulas).clone();
+            let copy = if r.chance(1, 2) {
+                src
+            } else {
+                let mut t = src.clone();
+                for (a, b) in [("{x}", "{x_}"), ("{y}", "{x}"), ("{x_}", "{y}"), ("{z}", "{zz9}")] {
+                    t = t.replace(a, b);
+                }
+                t
+            };
+            let pos = r.below(formulas.len() + 1);
+            formulas.insert(pos, copy);
+        }
+    }
     let print = r.pick(&["no-print", "summary", "summary", "with-progress", "exhaustive"]).to_string();
     let out = match r.weighted(&[4, 3, 2, 1]) {
         0 => None,
@@ -376,7 +400,9 @@ pub fn generate(rng: &Rng, world: &World, tier: &str) -> C17 {
         _ => {}
     }
     let formula_file = layout(&mut r, &lines);
-    C17 { format, model_text, formula_file, print, out, ctx, fault, clock, rand: r.next_u64(), io_plan, prior_crash, chained_from }
+    let out_stale = out.is_some() && r.chance(1, 4);
+    let ctx_decoys = with_ctx && r.chance(1, 3);
+    C17 { format, model_text, formula_file, print, out, ctx, fault, clock, rand: r.next_u64(), io_plan, prior_crash, chained_from, out_stale, ctx_decoys }
 }
 
 // ---------------------------------------------------------------------------------------------
@@ -873,6 +899,18 @@ pub fn check(world: &World, sc: &C17, sandbox: &str) -> Report {
                 }
             }
         }
+        if sc.ctx_decoys {
+            // entries in a sub-directory (a zipped results folder with an `old/` copy): their names
+            // are `old/<label>`, which no formula can refer to
+            let labels: Vec<String> = m.keys().cloned().collect();
+            for (i, l) in labels.iter().enumerate() {
+                if let Ok(x) = build_set(&garch, &SetSpec::Dnf(77 + i as u64 + sc.rand % 1000)) {
+                    m.insert(format!("old/{l}"), x.clone());
+                    m.insert(format!("backup/1/{l}"), x);
+                }
+            }
+            rep.probe("context_archives_with_subdirectory_entries", 1);
+        }
         if build_result_archive(m, &ctx_path, &bn.to_string(), vec![]).is_err() {
             rep.skipped = Some("cannot write context archive".to_string());
             return rep;
@@ -906,14 +944,21 @@ pub fn check(world: &World, sc: &C17, sandbox: &str) -> Report {
                 }
             }
             Fault::ContextFlipped { bit } => {
+                let regions = crate::c16::data_regions(&ctx_path);
                 if let Ok(mut b) = std::fs::read(&ctx_path) {
                     if !b.is_empty() {
                         let i = (*bit as usize) % (b.len() * 8);
                         b[i / 8] ^= 1 << (i % 8);
                         let _ = std::fs::write(&ctx_path, &b);
                         ctx_damaged = true;
-                        ctx_flipped = true;
+                        // a verdict only where a checksum covers the flipped bit (entry data);
+                        // names, sizes and offsets carry none
+                        let in_data = regions.iter().any(|(a, e)| (i / 8) as u64 >= *a && ((i / 8) as u64) < *e);
+                        ctx_flipped = !in_data;
                         rep.probe("context_bit_flipped", 1);
+                        if in_data {
+                            rep.probe("context_bit_flipped_in_entry_data", 1);
+                        }
                     }
                 }
             }
@@ -953,6 +998,21 @@ pub fn check(world: &World, sc: &C17, sandbox: &str) -> Report {
         };
         args.push("-o".to_string());
         args.push(arg);
+        if sc.out_stale {
+            // a previous, larger run wrote to the same path
+            if let Some(parent) = std::path::Path::new(&abs).parent() {
+                let _ = std::fs::create_dir_all(parent);
+            }
+            if let Ok(g0) = get_extended_symbolic_graph(&bn, 0) {
+                let mut big: HashMap<String, Gcv> = HashMap::new();
+                for i in 0..14 {
+                    big.insert(format!("formula-{i}"), g0.mk_unit_colored_vertices());
+                }
+                let lines: Vec<String> = (0..40).map(|i| format!("stale formula line {i} ........................................")).collect();
+                let _ = build_result_archive(big, &abs, &format!("{}\n# stale\n", bn.to_string().repeat(3)), lines);
+                rep.probe("stale_larger_archive_at_output_path", 1);
+            }
+        }
         out_abs = Some(abs);
         rep.probe("with_output_archive", 1);
     }
@@ -1134,7 +1194,7 @@ pub fn check(world: &World, sc: &C17, sandbox: &str) -> Report {
 }
 
 fn finish(mut rep: Report, sc: &C17) -> Report {
-    let mut sig = fnv1a(format!("{}{}{:?}{:?}{}", sc.format, sc.print, sc.out, sc.fault, sc.io_plan).as_bytes());
+    let mut sig = fnv1a(format!("{}{}{:?}{:?}{}{}{}", sc.format, sc.print, sc.out, sc.fault, sc.io_plan, sc.out_stale, sc.ctx_decoys).as_bytes());
     sig ^= fnv1a(sc.formula_file.as_bytes()).rotate_left(7);
     sig ^= fnv1a(sc.clock.as_bytes()).rotate_left(17);
     let layout_plain = sc.formula_file.lines().all(|l| l == l.trim() && !l.is_empty() && !l.starts_with('#'));
@@ -1164,6 +1224,8 @@ pub fn shrinks(sc: &C17) -> Vec<C17> {
     push(&|s| s.prior_crash = None);
     push(&|s| s.rand = 0);
     push(&|s| s.fault = Fault::None);
+    push(&|s| s.out_stale = false);
+    push(&|s| s.ctx_decoys = false);
     if sc.io_plan.contains(',') {
         for part in sc.io_plan.split(',') {
             let p = part.to_string();
